@@ -234,7 +234,10 @@ def _line(given, sp, place, place2, s, n, bi, usenull, novalue, npos, p1, p2, n2
     # ---- parse and compare
     for wskel, wtokens in skel.warm:         # another format of the same tree has been used before (concrete line: run with the tracer off)
         untraced(_warm, wskel.fmt, wtokens)
-    res = DefaultArgsParser().parse(ArgvArgs(["prog"] + tokens), skel.fmt, lenient)
+    parser = DefaultArgsParser()
+    if PART.get("reuse"):                    # the parser object has been used before, for a line that was rejected
+        untraced(_reject_one, parser, skel.fmt)
+    res = parser.parse(ArgvArgs(["prog"] + tokens), skel.fmt, lenient)
     if res.options(False) != exp_opts or res.arguments(False) != exp_args:
         return False
     full_opts = dict(exp_opts)
@@ -260,6 +263,13 @@ def _line(given, sp, place, place2, s, n, bi, usenull, novalue, npos, p1, p2, n2
         if res.is_argument_set(a.name) != (a.name in exp_args) or res.is_argument_set(idx) != (a.name in exp_args):
             return False
     return True
+
+
+def _reject_one(parser, fmt):
+    try:
+        parser.parse(ArgvArgs(["prog", "p", "q", "r", "s", "t", "--no-such-option"]), fmt, False)
+    except Exception:  # noqa - rejected, as intended
+        pass
 
 
 def _warm(fmt, tokens):
@@ -343,7 +353,7 @@ def conditions(tier):
         for sp in (range(4) if sk in pfmt.SKELS else (0, 3)):       # (the tree skeletons only have a flag option: two spelling styles suffice)
             for fam in ("structure", "values"):
                 conds.append({"name": "line[%s,sp%d,%s]" % (sk, sp, fam), "fn": line_structure if fam == "structure" else line_values, "timeout": t,
-                              "part": {"skel": sk, "sp": sp, "two_places": not quick, "tail2": not quick, "family": fam, "nmax": (12 if quick else 99) if sk in pfmt.SKELS else (3 if quick else 12)},
+                              "part": {"skel": sk, "sp": sp, "two_places": not quick, "tail2": not quick, "family": fam, "reuse": sp == 1, "nmax": (12 if quick else 99) if sk in pfmt.SKELS else (3 if quick else 12)},
                               "bounds": ("format %s, spelling style %d (%s); " % (sk, sp, ["--n=v", "--n v", "-nv", "-n v"][sp])) + (
                                   "STRUCTURE family: symbolic = which options are given, their place(s) among the positionals, number of positionals, command-name spelling (name/alias/mixed/omitted), '--' and where, value-less optional option, leniency; values pinned"
                                   if fam == "structure" else
